@@ -1,21 +1,202 @@
+//! C35 flows: every process/cluster networking shape of `hydro_lang`, generic over the payload type, plus
+//! the payload types themselves. The flows contain nothing but the networking operator under test and
+//! (where the result is a keyed / unordered collection) a fixed observer that turns it into the
+//! `Stream<_, _, _, TotalOrder, ExactlyOnce>` that `embedded_output` needs.
 #[cfg(stageleft_runtime)]
 hydro_lang::setup!();
 
 use hydro_lang::live_collections::stream::{ExactlyOnce, TotalOrder};
+use hydro_lang::location::MemberId;
+use hydro_lang::location::cluster::CLUSTER_SELF_ID;
 use hydro_lang::prelude::*;
+use serde::de::DeserializeOwned;
+use serde::{Deserialize, Serialize};
 
-/// Example flow (replace): doubles every input.
-pub fn double<'a>(input: Stream<i64, Process<'a, ()>>) -> Stream<i64, Process<'a, ()>> {
-    input.map(q!(|x| x * 2))
+/// Location tag of the sending side.
+pub struct Src;
+/// Location tag of the receiving side.
+pub struct Dst;
+
+// ------------------------------------------------------------------------------------------------
+// payload types (nested from i64, String, Option, Vec, tuple, enum, struct)
+
+pub type PInt = i64;
+pub type PStr = String;
+pub type POptVec = Option<Vec<(i64, String)>>;
+
+#[derive(Serialize, Deserialize, Clone, Debug, PartialEq, Eq, Hash)]
+pub enum Shape {
+    Unit,
+    One(i64),
+    Pair(i64, String),
+    Named { x: Option<i64>, tags: Vec<String> },
+    Nest(Box<Shape>),
+    Many(Vec<Shape>),
 }
 
-/// Example observer wrapper (replace): a singleton observed as the stream of its per-tick samples.
-pub fn running_count<'a>(
-    input: Stream<i64, Process<'a, ()>>,
-) -> Stream<usize, Process<'a, ()>, Unbounded, TotalOrder, ExactlyOnce> {
+#[derive(Serialize, Deserialize, Clone, Debug, PartialEq, Eq, Hash)]
+pub struct Rec {
+    pub id: i64,
+    pub name: String,
+    pub opt: Option<Box<Rec>>,
+    pub items: Vec<(i64, Option<String>)>,
+    pub shape: Shape,
+    pub unit: (),
+    pub flag: bool,
+    pub pair: (String, (i64, Vec<Option<i64>>)),
+}
+
+/// A payload that itself carries typed member ids (their custom `Serialize`/`Deserialize` impls go
+/// through the untyped form).
+#[derive(Serialize, Deserialize, Clone, Debug, PartialEq, Eq, Hash)]
+pub struct Routed {
+    pub via: MemberId<Dst>,
+    pub hops: Vec<MemberId<Src>>,
+    pub reply_to: Option<(MemberId<Src>, i64)>,
+    pub body: String,
+}
+
+type Out<'a, T, L> = Stream<T, L, Unbounded, TotalOrder, ExactlyOnce>;
+
+// ------------------------------------------------------------------------------------------------
+// process -> process
+
+pub fn o2o<'a, T: Serialize + DeserializeOwned>(
+    input: Stream<T, Process<'a, Src>>,
+    to: &Process<'a, Dst>,
+) -> Out<'a, T, Process<'a, Dst>> {
+    input.send(to, TCP.fail_stop().bincode().name("ch"))
+}
+
+pub fn o2o_raw<'a, T: Serialize + DeserializeOwned>(
+    input: Stream<T, Process<'a, Src>>,
+    to: &Process<'a, Dst>,
+) -> Out<'a, T, Process<'a, Dst>> {
+    input.send(to, TCP.fail_stop().embedded().name("ch"))
+}
+
+// ------------------------------------------------------------------------------------------------
+// process -> cluster
+
+pub fn o2m_demux<'a, T: Serialize + DeserializeOwned>(
+    input: Stream<(MemberId<Dst>, T), Process<'a, Src>>,
+    to: &Cluster<'a, Dst>,
+) -> Out<'a, T, Cluster<'a, Dst>> {
+    input.demux(to, TCP.fail_stop().bincode().name("ch"))
+}
+
+pub fn o2m_demux_raw<'a, T: Serialize + DeserializeOwned>(
+    input: Stream<(MemberId<Dst>, T), Process<'a, Src>>,
+    to: &Cluster<'a, Dst>,
+) -> Out<'a, T, Cluster<'a, Dst>> {
+    input.demux(to, TCP.fail_stop().embedded().name("ch"))
+}
+
+/// Keyed demux: `KeyedStream<(MemberId, K), V>` travels as the tuple `(K, V)`.
+pub fn o2m_keyed_demux<'a, K: Serialize + DeserializeOwned, V: Serialize + DeserializeOwned>(
+    input: Stream<(MemberId<Dst>, (K, V)), Process<'a, Src>>,
+    to: &Cluster<'a, Dst>,
+) -> Out<'a, (K, V), Cluster<'a, Dst>> {
     input
-        .count()
-        .sample_eager(nondet!(/** observer */))
+        .map(q!(|(id, (k, v))| ((id, k), v)))
+        .into_keyed()
+        .demux(to, TCP.fail_stop().bincode().name("ch"))
+        .entries()
         .assume_ordering(nondet!(/** observer */))
-        .assume_retries(nondet!(/** observer */))
+}
+
+pub fn o2m_bcast<'a, T: Clone + Serialize + DeserializeOwned>(
+    input: Stream<T, Process<'a, Src>>,
+    to: &Cluster<'a, Dst>,
+) -> Out<'a, T, Cluster<'a, Dst>> {
+    input.broadcast(
+        to,
+        TCP.fail_stop().bincode().name("ch"),
+        nondet!(/** the harness feeds membership in ticks before any data */),
+    )
+}
+
+// ------------------------------------------------------------------------------------------------
+// cluster -> process
+
+pub fn m2o<'a, T: Serialize + DeserializeOwned>(
+    input: Stream<T, Cluster<'a, Src>>,
+    to: &Process<'a, Dst>,
+) -> Out<'a, (MemberId<Src>, T), Process<'a, Dst>> {
+    input
+        .send(to, TCP.fail_stop().bincode().name("ch"))
+        .entries()
+        .assume_ordering(nondet!(/** observer */))
+}
+
+pub fn m2o_raw<'a, T: Serialize + DeserializeOwned>(
+    input: Stream<T, Cluster<'a, Src>>,
+    to: &Process<'a, Dst>,
+) -> Out<'a, (MemberId<Src>, T), Process<'a, Dst>> {
+    input
+        .send(to, TCP.fail_stop().embedded().name("ch"))
+        .entries()
+        .assume_ordering(nondet!(/** observer */))
+}
+
+/// Keyed send: `KeyedStream<K, V>` from a cluster arrives as `KeyedStream<(MemberId, K), V>`.
+pub fn m2o_keyed<'a, K: Serialize + DeserializeOwned, V: Serialize + DeserializeOwned>(
+    input: Stream<(K, V), Cluster<'a, Src>>,
+    to: &Process<'a, Dst>,
+) -> Out<'a, (MemberId<Src>, (K, V)), Process<'a, Dst>> {
+    input
+        .into_keyed()
+        .send(to, TCP.fail_stop().bincode().name("ch"))
+        .entries()
+        .map(q!(|((id, k), v)| (id, (k, v))))
+        .assume_ordering(nondet!(/** observer */))
+}
+
+/// Every member stamps its payload with `CLUSTER_SELF_ID`; the receiver sees (transport tag, (self id, t)).
+pub fn m2o_selfid<'a, T: Serialize + DeserializeOwned>(
+    input: Stream<T, Cluster<'a, Src>>,
+    to: &Process<'a, Dst>,
+) -> Out<'a, (MemberId<Src>, (MemberId<Src>, T)), Process<'a, Dst>> {
+    input
+        .map(q!(move |t| (CLUSTER_SELF_ID.clone(), t)))
+        .send(to, TCP.fail_stop().bincode().name("ch"))
+        .entries()
+        .assume_ordering(nondet!(/** observer */))
+}
+
+// ------------------------------------------------------------------------------------------------
+// cluster -> cluster
+
+pub fn m2m_demux<'a, T: Serialize + DeserializeOwned>(
+    input: Stream<(MemberId<Dst>, T), Cluster<'a, Src>>,
+    to: &Cluster<'a, Dst>,
+) -> Out<'a, (MemberId<Src>, T), Cluster<'a, Dst>> {
+    input
+        .demux(to, TCP.fail_stop().bincode().name("ch"))
+        .entries()
+        .assume_ordering(nondet!(/** observer */))
+}
+
+pub fn m2m_demux_raw<'a, T: Serialize + DeserializeOwned>(
+    input: Stream<(MemberId<Dst>, T), Cluster<'a, Src>>,
+    to: &Cluster<'a, Dst>,
+) -> Out<'a, (MemberId<Src>, T), Cluster<'a, Dst>> {
+    input
+        .demux(to, TCP.fail_stop().embedded().name("ch"))
+        .entries()
+        .assume_ordering(nondet!(/** observer */))
+}
+
+pub fn m2m_bcast<'a, T: Clone + Serialize + DeserializeOwned>(
+    input: Stream<T, Cluster<'a, Src>>,
+    to: &Cluster<'a, Dst>,
+) -> Out<'a, (MemberId<Src>, T), Cluster<'a, Dst>> {
+    input
+        .broadcast(
+            to,
+            TCP.fail_stop().bincode().name("ch"),
+            nondet!(/** the harness feeds membership in ticks before any data */),
+        )
+        .entries()
+        .assume_ordering(nondet!(/** observer */))
 }
